@@ -163,11 +163,28 @@ let () =
       | Some c0 when positive && evs <> [] ->
           count "in_domain";
           let t0 = spec_t0 c0.c_when d in
-          (* tick = max prev (elapsed periods) along every history *)
+          (* tick = max prev (whole periods elapsed since t0), with unbounded integers, along every
+             history.  Where Time.Sub saturates (more than 2^63-1 ns between t0 and the commit) a
+             difference is the known finding F17; it is expected only in the -sat streams. *)
+          let kind = atom (List.hd (args (field "kind" c))) in
+          let sat_stream = String.length kind >= 4 && String.sub kind (String.length kind - 4) 4 = "-sat" in
           List.iteri (fun b l ->
-            if not (tick_chain t0 d Z0 l) then
-              propfail id (Printf.sprintf "tick formula violated on branch %d: t0=%s d=%s times=%s ticks=%s" b
-                             (string_of_z t0) (string_of_z d) (show_zs (times l)) (show_zs (ticks l)))) lins;
+            let prev = ref Z0 in
+            List.iter2 (fun e (ok, inr) ->
+              if not ok then begin
+                let t = (fst e).c_when in
+                let expected = spec_tick t0 d !prev t in
+                if inr then
+                  propfail id (Printf.sprintf "tick formula violated on branch %d: commit %s at t=%s got tick %s, expected max(prev=%s, floor((t - t0)/d)) = %s (t0=%s d=%s)"
+                                 b (string_of_z (fst e).c_hash) (string_of_z t) (string_of_z (snd e)) (string_of_z !prev)
+                                 (string_of_z expected) (string_of_z t0) (string_of_z d))
+                else
+                  propfail id (Printf.sprintf "[duration-saturation]%s tick %s given on branch %d to commit %s but %s periods have elapsed since the start of tick 0 (t - t0 = %s ns is beyond the +-2^63 ns of time.Duration; t0=%s d=%s prev=%s)"
+                                 (if sat_stream then "" else "[outside-sat-stream]")
+                                 (string_of_z (snd e)) b (string_of_z (fst e).c_hash) (string_of_z expected)
+                                 (string_of_z (Z.sub t t0)) (string_of_z t0) (string_of_z d) (string_of_z !prev))
+              end;
+              prev := snd e) l (chain_verdicts t0 d Z0 l)) lins;
           if List.exists (fun e -> not (in_range t0 (fst e).c_when)) evs then count "saturated";
           if List.exists (fun e -> Z.ltb (fst e).c_when t0) evs then count "before_start";
           (* monotone committer times: no raising, the tick depends on the commit alone, listed exactly once *)
